@@ -318,9 +318,11 @@ impl<'tcx> Dumper<'tcx> {
             let j = match elem {
                 ProjectionElem::Deref => J::Str("*".into()),
                 ProjectionElem::Field(f, _) => {
-                    // field name, if the base is an ADT
+                    // field name and owning ADT, if the base is an ADT
+                    let mut of = None;
                     let name = match pty.ty.kind() {
                         ty::Adt(adt, _) => {
+                            of = Some(self.path(adt.did()));
                             let v = pty.variant_index.unwrap_or(rustc_abi::FIRST_VARIANT);
                             adt.variants()
                                 .get(v)
@@ -330,7 +332,11 @@ impl<'tcx> Dumper<'tcx> {
                         }
                         _ => f.index().to_string(),
                     };
-                    J::obj(vec![("f", J::Int(f.index() as i128)), ("n", J::Str(name))])
+                    let mut o = vec![("f", J::Int(f.index() as i128)), ("n", J::Str(name))];
+                    if let Some(of) = of {
+                        o.push(("of", J::Str(of)));
+                    }
+                    J::obj(o)
                 }
                 ProjectionElem::Downcast(name, vi) => J::obj(vec![
                     ("d", J::Int(vi.index() as i128)),
@@ -448,7 +454,19 @@ impl<'tcx> Dumper<'tcx> {
                 ("op", J::Str(format!("{:?}", op))),
                 ("a", self.operand(owner, body, a)),
             ]),
-            Rvalue::Discriminant(p) => J::obj(vec![("k", J::Str("discr".into())), ("p", self.place(body, p))]),
+            Rvalue::Discriminant(p) => {
+                let pt = p.ty(&body.local_decls, self.tcx).ty;
+                let nv = match pt.kind() {
+                    ty::Adt(adt, _) if adt.is_enum() => adt.variants().len() as i128,
+                    _ => -1,
+                };
+                J::obj(vec![
+                    ("k", J::Str("discr".into())),
+                    ("p", self.place(body, p)),
+                    ("nv", J::Int(nv)),
+                    ("ety", J::Str(self.tys(pt))),
+                ])
+            }
             Rvalue::Aggregate(ak, ops) => {
                 let mut o = vec![("k", J::Str("agg".into()))];
                 match &**ak {
